@@ -792,6 +792,15 @@ func c08Raw(f *xl.File, sheet, cell string) (res string) {
 	return fmt.Sprintf("type%d", a.Type)
 }
 
+// c08Out: for a numeric raw result, the string the public CalcCellValue(RawCellValue) returns —
+// the model renders the number itself (15 significant digits rule) and must produce this text
+func c08Out(raw, res, errs string, tol bool) string {
+	if tol || errs != "" || !strings.HasPrefix(raw, "num ") {
+		return ""
+	}
+	return " out=" + hx(res)
+}
+
 func c08SpecStr(v c08Val) string {
 	switch v.K {
 	case "num":
@@ -920,7 +929,7 @@ func (st *c08State) formula(r *Run, opname, key string, tree *c08Node, spaced bo
 	}
 	ln := 0
 	if !noLine {
-		ln = r.Op(op, raw+" render=ok tree=ok S="+specS)
+		ln = r.Op(op, raw+c08Out(raw, res, errs, ev.inexact)+" render=ok tree=ok S="+specS)
 	}
 	if key != "" {
 		st.lines = append(st.lines, op)
